@@ -119,6 +119,8 @@ def generate(seed, tier, batch):
     # similarity
     routine = r.choice(["orbit_to_sample", "event_to_sample"])
     modes = r.randint(1, 12 if big else 8)
+    if routine == "event_to_sample" and r.random() < 0.25:
+        modes = r.randint(20, 40)  # where floating point factorials stop being exact
     if routine == "orbit_to_sample":
         k = r.randint(1, min(modes, 5))
         orbit = sorted([r.randint(1, 4) for _ in range(k)], reverse=True)
@@ -181,6 +183,30 @@ class Odometer:
                 j = self.pick(i + 1)
                 x[i], x[j] = x[j], x[i]
             return None
+        if name in ("randint", "random_integers"):
+            low = int(args[0])
+            high = args[1] if len(args) > 1 else kwargs.get("high")
+            if high is None:
+                low, high = 0, low
+            high = int(high) + (1 if name == "random_integers" else 0)
+            n_ = max(1, high - low)
+            self.calls.append(("randint", n_, None))
+            if n_ <= 64:
+                return low + self.pick(n_)
+            cand = sorted({0, 1, n_ // 3, n_ // 2, n_ - 2, n_ - 1})
+            return low + cand[self.pick(len(cand))]
+        if name in ("random", "random_sample", "rand", "uniform"):
+            # a uniform draw: a handful of representative values incl. both ends
+            lo_, hi_ = (float(args[0]), float(args[1])) if name == "uniform" and len(args) > 1 else (0.0, 1.0)
+            vals = [0.0, 1e-12, 0.25, 0.5, 0.75, 1.0 - 1e-12]
+            self.calls.append((name, len(vals), None))
+            return lo_ + (hi_ - lo_) * vals[self.pick(len(vals))]
+        if name == "permutation":
+            x = list(range(int(args[0]))) if isinstance(args[0], (int, np.integer)) else list(args[0])
+            for i in range(len(x) - 1, 0, -1):
+                j = self.pick(i + 1)
+                x[i], x[j] = x[j], x[i]
+            return np.array(x)
         raise HarnessError("C19: unexpected numpy.random.%s" % name)
 
 
